@@ -196,11 +196,51 @@ def drop_rules(F, R):
     R.ob('FLOW', 'FLOW::%s::on-nodes' % fnkey(rn), len(adds) == 1 and rn.chain(adds[0].args[0]) == 'self.nodes', 'register_node_id adds to self.nodes', adds[0].where if adds else rn.file, rn)
 
 
+def error_conversions(F, R):
+    """The error enums of the service builders are converted into one another (`impl From<XOpenError> for ServiceOpenError` and back, Create,
+    OpenOrCreate ...).  The generic open/create/open_or_create protocol DECIDES on the converted value (retry on IsMarkedForDestruction,
+    give up otherwise): a source variant whose name also exists in the target enum is converted to exactly that variant."""
+    n = 0
+    for f in F.fn_list:
+        if f.crate != 'iceoryx2' or f.kind == 'closure':
+            continue
+        m = re.match(r'^<(iceoryx2::service::builder::[\w:]+) as core::convert::From<(iceoryx2::service::builder::[\w:]+)>>::from$', f.id) or \
+            re.match(r'^iceoryx2::service::builder::\w+::<impl core::convert::From<(?P<src>iceoryx2::service::builder::[\w:]+)> for (?P<dst>iceoryx2::service::builder::[\w:]+)>::from$', f.id)
+        if not m:
+            continue
+        dst, src = (m.group('dst'), m.group('src')) if 'dst' in m.groupdict() else (m.group(1), m.group(2))
+        da, sa = F.adts.get(dst), F.adts.get(src)
+        if not da or not sa or da['kind'] != 'enum' or sa['kind'] != 'enum':
+            continue
+        dvars = set(v['name'] for v in da['variants'])
+        bad, total = [], 0
+        for b in range(len(f.blocks)):
+            si = f.switch_info(b)
+            if not si or not si.get('enum_ty') or not si['enum_ty'].startswith(src):
+                continue
+            for lab, tgt in lib.arm_blocks(f, b, lambda l: True, F):
+                if lab not in dvars:
+                    continue
+                total += 1
+                names = sorted(set(a.node[2][1][2] for a in lib.agg_sites(f, '^' + re.escape(dst) + '$') if f.edge_dominates(b, tgt, a.b)))
+                if names != [lab]:
+                    bad.append('%s -> %s' % (lab, '|'.join(names) or '?'))
+        if total:
+            n += 1
+            R.ob('MATCH-MAP', 'MATCH-MAP::%s::from::%s::same-named-variants-map-to-themselves' % (core.short(dst), core.short(src)), not bad, '%d variant name(s) shared by %s and %s%s' % (total, core.short(src), core.short(dst), ' all map to themselves' if not bad else '; deviating: ' + ', '.join(bad)), '%s:%s' % (f.file, f.line), f)
+    R.floor('error conversions between builder error enums with shared variant names', n, 18)
+
+
 def check(F, R, tier):
     no_err_after_release(F, R)
     creation_registration(F, R)
     drop_rules(F, R)
     verify_cfg(F, R)
+    error_conversions(F, R)
+    # open(): the one step that can still fail (open_service_resource) precedes the node registration (C04's chain, also a C06 clause:
+    # 'a failed open leaves the service untouched')
+    from . import C04 as _C04
+    _C04.builder(F, R)
     # the 'being created' lock of the static config / dynamic config storages (permission bits): same rules as C04.storages
     from . import C04
     C04.storages(F, R)
